@@ -279,7 +279,12 @@ impl PolicyEngine for SimPolicy {
             TimeKind::Mono => Pct::Mono(w.mono_ns + off),
             TimeKind::Both => Pct::Both(w.wall_ns + off, w.mono_ns + off),
         };
-        let timing = CheckTiming { time: time.to_lib(), minimum_wait: spec.min_wait_s.map(Duration::from_secs) };
+        let (time, min_wait_s) = match (&w.last_timing, spec.same_as_previous) {
+            (Some(prev), true) => prev.clone(),
+            _ => (time, spec.min_wait_s),
+        };
+        w.last_timing = Some((time.clone(), min_wait_s));
+        let timing = CheckTiming { time: time.to_lib(), minimum_wait: min_wait_s.map(Duration::from_secs) };
         w.push(Ev::PolicyNext {
             apps: apps.iter().map(AppSnap::of).collect(),
             sched: SchedSnap::of(scheduling),
@@ -606,7 +611,7 @@ impl SimStorage {
         if w.interact() {
             return Ok(());
         }
-        let fail = w.storage.next_op_fails();
+        let fail = w.storage.next_key_op_fails(key);
         if !fail {
             w.storage.pending.insert(key.to_string(), Some(value.clone()));
         }
@@ -661,7 +666,7 @@ impl Storage for SimStorage {
             if w.interact() {
                 Ok(())
             } else {
-                let fail = w.storage.next_op_fails();
+                let fail = w.storage.next_key_op_fails(key);
                 if !fail {
                     w.storage.pending.insert(key.to_string(), None);
                 }
